@@ -5,8 +5,10 @@ import Glom.Model.C18Slice
   Executable primitives on tree values (`PV`): the kernel's model of what
   CPython does for attribute access, subscription, arithmetic and calls on
   None / bool / int / float / str / list / tuple / dict / plain attribute objects /
-  the harness' catalogue of callables.  The driver instantiates the parameter
-  `prim` of the C02 theorems with `pvPrim`.
+  the harness' catalogue of callables, as far as no object identity is involved
+  (numbers, strings, immutable data).  `Glom/Model/C02Heap.lean` builds the
+  instance `hPrim` of the parameter `prim` of the C02 theorems on top of it:
+  values with object identity in a heap, so that calls can change the target.
 
   Modelled, not verified: every case is compared, on every run, with the same
   operation performed by CPython itself (the third leg of the C02 correspondence).
@@ -219,7 +221,8 @@ def pvGetitem (cur key : PV) : Except PyExc PV :=
 def builtinMethods : List (String × String) :=
   [("str", "upper"), ("str", "count"), ("str", "index"), ("str", "startswith"),
    ("list", "count"), ("list", "index"), ("tuple", "count"), ("tuple", "index"),
-   ("dict", "get")]
+   ("dict", "get"),
+   ("list", "pop"), ("list", "append"), ("dict", "pop"), ("dict", "setdefault")]
 
 def pvTypeName : PV → String
   | .none => "NoneType" | .bool _ => "bool" | .int _ => "int" | .str _ => "str"
@@ -357,17 +360,17 @@ def pvUn (u : UnOp) (x : PV) : Except PyExc PV :=
 /-! ### calls: the harness' catalogue of callables and the builtin methods -/
 
 /-- bind `args`/`kwargs` to a parameter list `(name, default?)`; `none` is the TypeError -/
-def bindArgs (params : List (String × Option PV)) (args : List PV) (kwargs : List (String × PV)) :
-    Option (List PV) :=
+def bindArgs {α} (params : List (String × Option α)) (args : List α) (kwargs : List (String × α)) :
+    Option (List α) :=
   if args.length > params.length then none
   else if kwargs.any (fun kw => !(params.any (·.1 == kw.1))) then none
   else
     let idx := List.range params.length
-    let bound := (idx.zip params).map (fun (ip : Nat × (String × Option PV)) =>
+    let bound := (idx.zip params).map (fun (ip : Nat × (String × Option α)) =>
       let pos := args[ip.1]?
       let kw := (kwargs.find? (·.1 == ip.2.1)).map (·.2)
       match pos, kw with
-      | some _, some _ => (none : Option PV)            -- multiple values for the argument
+      | some _, some _ => (none : Option α)             -- multiple values for the argument
       | some v, none => some v
       | none, some v => some v
       | none, none => ip.2.2)
@@ -484,18 +487,5 @@ def pvCall (f : PV) (args : List PV) (kwargs : List (String × PV)) : Except PyE
   | .obj "<bound>" [("self", self), ("name", .str name)] => callMethod self name args kwargs
   | .ty _ => .error unsupported
   | _ => .error tyErr          -- object is not callable
-
-/-- the primitives of C02 on tree values; plain data: the second `arg_val` pass is the identity -/
-def pvPrim : Prim PV :=
-  { none := .none
-    getattr := pvGetattr
-    getitem := pvGetitem
-    call := pvCall
-    bin := pvBin
-    un := pvUn
-    mkList := PV.list
-    mkTuple := PV.tuple
-    mkDict := mkDictPV
-    reval := fun _ v => v }
 
 end Glom.C02
